@@ -151,6 +151,200 @@ def gen_diamond_pattern(rng: random.Random, rich: bool = True, effect_only: bool
         _NAMES = OP_NAMES
 
 
+CHAIN_TAGS = ['"hot"', '"cold"', "0 : i32", "1 : i32", "unit"]
+
+
+def gen_chain_pattern(rng: random.Random, rich: bool = True) -> dict:
+    """SELF-OVERLAPPING pattern: the root op-pattern and the op-pattern(s) producing one of its operands accept the
+    same payload operations (same name / arity / result count / attribute constraints), so that in a def-use chain of
+    such operations every link is the root of one match site and the producer inside the next one.  The rewrites are
+    the ones for which the ORDER of application is observable (not confluent): they change whether the neighbouring
+    sites still match — the root is replaced by a value from deeper in the chain, by its producer, or by a new
+    operation that does / does not satisfy the producer constraints any more (other attribute value, other name,
+    other operands).  Only operation names that are never trivially dead (see EFFECT_NAMES) are used, so that the
+    passes apply-pdl / apply-pdl-interp themselves can be compared on these cases."""
+    global _NAMES
+    _NAMES = EFFECT_NAMES
+    try:
+        # STACK mode: the root is told from its producers (name or attribute) and the rewrite puts a new root one link
+        # deeper — on a stack of producer-only links the created op matches again and again
+        stack_mode = rng.random() < 0.3
+        depth = _w(rng, [2, 3], [75, 25])                    # number of pdl.operation nodes
+        arity = _w(rng, [1, 2, 3], [50, 40, 10])
+        nres = _w(rng, [1, 2], [85, 15])
+        name = rng.choice(EFFECT_NAMES) if rng.random() < 0.85 or stack_mode else None
+        types: list = [rng.choice(TYPES) if rng.random() < 0.3 else None]
+        if rng.random() < 0.25:
+            types.append(None)
+        attrs: list = []
+        tagged = rng.random() < 0.55
+        root_named = stack_mode and rng.random() < 0.5
+        if stack_mode and not root_named:
+            tagged = True
+        tag_name = rng.choice(["a", "b", "value"])
+        if tagged:
+            attrs.append({"v": rng.choice(CHAIN_TAGS), "t": None})
+        # who carries the attribute constraint: every op, only the producers, only the root
+        carriers = _w(rng, ["all", "producers", "root"], [45, 20, 35]) if tagged else "none"
+        if stack_mode and not root_named:
+            carriers = "root"
+        vals: list = []
+
+        def new_val() -> int:
+            vals.append(0 if rng.random() < 0.25 else None)
+            return len(vals) - 1
+
+        ops: list = []
+        for i in range(depth):
+            opnds: list = []
+            pos = rng.randrange(arity)
+            for k in range(arity):
+                if i > 0 and k == pos:
+                    opnds.append(["r", i - 1, rng.randrange(nres)])
+                elif vals and rng.random() < 0.25:
+                    opnds.append(["v", rng.randrange(len(vals))])         # shared pdl.operand (same value twice)
+                else:
+                    opnds.append(["v", new_val()])
+            has_tag = tagged and (carriers == "all" or (carriers == "producers" and i < depth - 1) or (carriers == "root" and i == depth - 1))
+            ops.append({"name": name, "attrs": [[tag_name, 0]] if has_tag else [], "operands": opnds,
+                        "results": [(0 if rng.random() < 0.8 else len(types) - 1) for _ in range(nres)]})
+        if name is not None and (root_named or (not stack_mode and rng.random() < 0.2)):
+            # the root has another name than its producers: a chain of producer-named links under one root
+            ops[-1]["name"] = next(n for n in EFFECT_NAMES if n != name)
+        elif rng.random() < 0.08:
+            ops[rng.randrange(depth)]["name"] = rng.choice(EFFECT_NAMES)    # one link of another name
+        p = {"types": types, "attrs": attrs, "vals": vals, "ops": ops, "rw": [], "chain": True, "stack": stack_mode,
+             "layout": rng.choice(["grouped", "lazy"]), "mres": rng.choice(["match", "rewrite"])}
+        root = depth - 1
+        bv, ba, bt = _bound_nodes(p)
+        root_vals = [["v", r[1]] if r[0] == "v" else ["mr", r[1], r[2]] for r in ops[root]["operands"]]
+        deep_vals = [["v", r[1]] for o in ops[:root] for r in o["operands"] if r[0] == "v"]
+        prod_res = [["mr", j, k] for j in range(root) for k in range(nres)]
+        other_tag = rng.choice([t for t in CHAIN_TAGS if not tagged or t != attrs[0]["v"]])
+        kind = _w(rng, ["skip", "to-producer", "retag", "rename", "reassoc", "multi", "random"], [22, 10, 22, 8, 16, 10, 12])
+        if stack_mode:
+            kind = "reassoc"
+        acts: list = []
+
+        def new_like_root(nm: str | None, opnds: list, tag: str | None) -> None:
+            if tag == "other":
+                al = [[tag_name, ["k", other_tag]]]
+            elif tag == "same" and tagged:
+                al = [[tag_name, ["c", 0]]]
+            else:
+                al = []
+            acts.append(["op", nm if nm is not None else "test.op", opnds, al, [["c", t] for t in ops[root]["results"]]])
+
+        if kind == "rename" and name is None:
+            kind = "retag"
+        if kind == "skip" and deep_vals:
+            acts.append(["replace_vals", ["m", root], [rng.choice(deep_vals) for _ in range(nres)]])
+        elif kind == "to-producer" or (kind == "skip" and not deep_vals):
+            acts.append(["replace_vals", ["m", root], [rng.choice(prod_res) for _ in range(nres)]])
+        elif kind == "retag":
+            opnds = list(root_vals)
+            if rng.random() < 0.5:
+                rng.shuffle(opnds)
+            if not tagged:
+                # no attribute to tell the new op from the old one: another operand count does it
+                opnds = opnds[:-1] if rng.random() < 0.5 else opnds + [rng.choice(opnds)]
+            new_like_root(ops[root]["name"], opnds, "other")
+            acts.append(["replace_op", ["m", root], ["n", 0]])
+        elif kind == "rename":
+            other = [n for n in EFFECT_NAMES if n != ops[root]["name"]] or EFFECT_NAMES
+            new_like_root(rng.choice(other), list(root_vals), "same")
+            acts.append(["replace_op", ["m", root], ["n", 0]])
+        elif kind == "reassoc":
+            # REGROW: the new op has the root's name and attributes and sits one link deeper (at the position where the
+            # root takes its producer's result it takes what the producer takes there): it matches again wherever the
+            # chain goes on below — visiting created ops and walking to a fixpoint are observable
+            pool = deep_vals + [v for v in root_vals if v[0] == "v"]
+            if not pool:
+                pool = prod_res
+            opnds = [rng.choice(pool) for _ in range(arity)]
+            ppos = next(k for k, r in enumerate(ops[root]["operands"]) if r[0] == "r")
+            below = ops[root - 1]["operands"][ppos] if ppos < len(ops[root - 1]["operands"]) else None
+            if below is not None and (stack_mode or rng.random() < 0.8):
+                opnds[ppos] = ["v", below[1]] if below[0] == "v" else ["mr", below[1], below[2]]
+            new_like_root(ops[root]["name"], opnds, "same")
+            if tagged and not ops[root]["attrs"] and rng.random() < 0.5:
+                acts[-1][3] = []                                         # (producers carry the tag, the root does not)
+            acts.append(["replace_op", ["m", root], ["n", 0]])
+        elif kind == "multi":
+            # the root is replaced and a producer is replaced / erased as well (well formed only where the producer
+            # has no other user: the fan-out links of the payloads are the ill-formed sites)
+            pool = deep_vals + [v for v in root_vals if v[0] == "v"]
+            if pool:
+                acts.append(["replace_vals", ["m", root], [rng.choice(pool) for _ in range(nres)]])
+            else:
+                new_like_root(name, [], "other")
+                acts.append(["replace_op", ["m", root], ["n", 0]])
+            j = rng.randrange(root)
+            if rng.random() < 0.5 or not pool:
+                acts.append(["erase", ["m", j]])
+            else:
+                acts.append(["replace_vals", ["m", j], [rng.choice(pool) for _ in range(nres)]])
+        else:
+            acts = gen_rewrite(rng, p, rich)
+        p["rw"] = acts
+        return p
+    finally:
+        _NAMES = OP_NAMES
+
+
+def gen_chain_payload(rng: random.Random, p: dict) -> tuple[dict, list[str]]:
+    """def-use chains / trees whose links are overlapping instances of `p`: every new instance reuses an earlier root
+    instance (mostly the latest: a chain; sometimes an older one: fan-out, i.e. values with several users) as the
+    producer of its root; some links are near misses; where the pattern tells the root from its producers (name or
+    attribute) lower links are turned into producer-only links (stacks under a root); effectful sinks keep the ends alive"""
+    global _NAMES
+    _NAMES = EFFECT_NAMES
+    try:
+        b = Builder(rng)
+        muts: list[str] = []
+        nops = len(p["ops"])
+        prod = next((r[1] for r in p["ops"][-1]["operands"] if r[0] == "r"), None)
+        root_only = {n for n, _ in p["ops"][-1]["attrs"]} - ({n for n, _ in p["ops"][prod]["attrs"]} if prod is not None else set())
+        prod_name = p["ops"][prod]["name"] if prod is not None else None
+        other_name = prod_name is not None and p["ops"][-1]["name"] != prod_name
+
+        def demote(i: int) -> None:
+            # PRODUCER-ONLY link: fits the producer op-pattern but not the root's (it has the producers' name / lacks
+            # the attribute only the root demands).  Stacks of such links under a root keep their depth until a rewrite
+            # creates a new root on top of them: the created op matches again, so visiting created ops / walking to a
+            # fixpoint is observable
+            o = b.ops[i]
+            o["attrs"] = [x for x in o["attrs"] if x[0] not in root_only]
+            o["props"] = [x for x in o["props"] if x[0] not in root_only]
+            if other_name:
+                o["name"] = prod_name
+            muts.append("producer-only-link")
+
+        for _chain in range(_w(rng, [1, 2], [80, 20])):
+            roots = [b.instantiate(p, True)]
+            nlinks = _w(rng, [1, 2, 3, 4, 5], [15, 30, 25, 20, 10])
+            stack = (root_only or other_name) and rng.random() < (0.9 if p.get("stack") else 0.4)   # producer-only links below, roots on top
+            for k in range(nlinks):
+                if (root_only or other_name) and (rng.random() < 0.8 if stack and k < nlinks - 1 else rng.random() < 0.15):
+                    demote(roots[-1])
+                lo = len(b.ops)
+                perfect = rng.random() < 0.8
+                at = roots[-1] if rng.random() < 0.75 else rng.choice(roots)
+                reuse = {prod: at} if prod is not None and nops > 1 else None
+                roots.append(b.instantiate(p, perfect, reuse))
+                if not perfect:
+                    muts.append(b.mutate(lo))
+            # sinks: the last link always, other links sometimes
+            for r in [roots[-1]] + [x for x in roots[:-1] if rng.random() < 0.2]:
+                if r < len(b.ops) and b.ops[r]["results"]:
+                    k = rng.randrange(len(b.ops[r]["results"]))
+                    b.ops.append({"name": rng.choice(["test.op", "unreg.use"]), "operands": [["r", r, k] for _ in range(rng.randint(1, 2))],
+                                  "attrs": [], "props": [], "results": []})
+        return b.payload(), ["chain"] + muts
+    finally:
+        _NAMES = OP_NAMES
+
+
 def _bound_nodes(p: dict) -> tuple[list[int], list[int], list[int]]:
     """indices of operand / attribute / type nodes reachable from the root (bound by every match)"""
     vs: set[int] = set()
@@ -298,29 +492,68 @@ class Builder:
         self.ops.append({"name": rng.choice(_NAMES), "operands": [], "attrs": [], "props": [], "results": [t]})
         return ["r", len(self.ops) - 1, 0]
 
-    def instantiate(self, p: dict, perfect: bool) -> int:
-        """append ops realising the pattern; returns the position of the root instance"""
+    def instantiate(self, p: dict, perfect: bool, reuse: dict[int, int] | None = None) -> int:
+        """append ops realising the pattern; returns the position of the root instance.
+        `reuse` = {pattern op: existing payload op}: these pattern ops are not created again, the existing op plays
+        their part (overlapping match sites: one payload op is root of one instance and producer in another); the
+        map is closed downwards along the existing op's operands, and the types / values / attributes the existing
+        ops fix are taken over, so that the overlapping instance is a perfect one whenever the existing ops fit"""
         rng = self.rng
-        tys = [t if t is not None else rng.choice(TYPES) for t in p["types"]]
+        where: dict[int, int] = {}
+        fixed_t: dict[int, str] = {}
+        fixed_v: dict[int, list] = {}
+        fixed_a: dict[int, str] = {}
+        todo = list((reuse or {}).items())
+        while todo:
+            j, e = todo.pop()
+            if j in where or not (0 <= j < len(p["ops"]) - 1) or not (0 <= e < len(self.ops)):
+                continue
+            where[j] = e
+            x, po = self.ops[e], p["ops"][j]
+            for t, actual in zip(po["results"], x["results"]):
+                fixed_t.setdefault(t, actual)
+            for ref, actual in zip(po["operands"], x["operands"]):
+                if ref[0] == "v":
+                    fixed_v.setdefault(ref[1], list(actual))
+                    if p["vals"][ref[1]] is not None:
+                        fixed_t.setdefault(p["vals"][ref[1]], self.type_of(actual))
+                elif actual[0] == "r":
+                    todo.append((ref[1], actual[1]))
+            for n, a in po["attrs"]:
+                for m, av in x["props"] + x["attrs"]:
+                    if m == n:
+                        fixed_a.setdefault(a, av)
+                        break
+        tys = [fixed_t.get(k, t if t is not None else rng.choice(TYPES)) for k, t in enumerate(p["types"])]
         if not perfect and rng.random() < 0.15 and tys:
             tys[rng.randrange(len(tys))] = rng.choice(TYPES)       # violates a constant type
         # attributes: typed constraints need an attribute of the bound type
         avs = []
-        for d in p["attrs"]:
-            if d.get("t") is not None:
+        for k, d in enumerate(p["attrs"]):
+            if k in fixed_a:
+                avs.append(fixed_a[k])
+            elif d.get("t") is not None:
                 avs.append(attr_of_type(rng, tys[d["t"]]))
             elif d.get("v") is not None:
                 avs.append(d["v"])
             else:
                 avs.append(rng.choice(ALL_ATTRS))
         vals = []
-        for t in p["vals"]:
-            vals.append(self.value_of_type(tys[t] if t is not None else rng.choice(TYPES), fresh=rng.random() < 0.5))
-        where: dict[int, int] = {}
+        for k, t in enumerate(p["vals"]):
+            if k in fixed_v:
+                vals.append(fixed_v[k])
+            else:
+                vals.append(self.value_of_type(tys[t] if t is not None else rng.choice(TYPES), fresh=rng.random() < 0.5))
         for i, po in enumerate(p["ops"]):
+            if i in where:
+                continue
             opnds = []
             for r in po["operands"]:
-                opnds.append(list(vals[r[1]]) if r[0] == "v" else ["r", where[r[1]], r[2]])
+                if r[0] == "v":
+                    opnds.append(list(vals[r[1]]))
+                else:
+                    k = min(r[2], max(0, len(self.ops[where[r[1]]]["results"]) - 1))     # (a reused op may have fewer results)
+                    opnds.append(["r", where[r[1]], k] if self.ops[where[r[1]]]["results"] else list(self.value_of_type(rng.choice(TYPES))))
             al = [[n, avs[a]] for n, a in po["attrs"]]
             o = {"name": po["name"] if po["name"] is not None else rng.choice(_NAMES + ["unreg.any"]),
                  "operands": opnds,
@@ -462,10 +695,16 @@ class Builder:
 def _gen_payload(rng: random.Random, p: dict) -> tuple[dict, list[str]]:
     b = Builder(rng)
     muts: list[str] = []
+    last_root: int | None = None
+    prod = next((r[1] for r in p["ops"][-1]["operands"] if r[0] == "r"), None)
     for inst in range(_w(rng, [1, 2, 3], [50, 35, 15])):
         lo = len(b.ops)
         perfect = rng.random() < (0.35 if p.get("diamond") else 0.45)
-        b.instantiate(p, perfect)
+        # overlapping instances: the previous root instance plays the producer of this root (fits or is a near miss)
+        overlap = last_root is not None and prod is not None and last_root < len(b.ops) and rng.random() < 0.3
+        if overlap:
+            muts.append("overlap")
+        last_root = b.instantiate(p, perfect, {prod: last_root} if overlap else None)
         if not perfect and p.get("diamond") and rng.random() < 0.75:
             # the decisive near-misses of a diamond: results of two different producers / swapped result indices
             muts.append(b.mutate(lo, rng.choice(["operand-twin-producer", "operand-twin-producer", "operand-swap-index"])))
